@@ -310,6 +310,12 @@ func (e *c12Env) run(c c12Case) (obs, bad string) {
 						if !bytes.Equal(again, keep) {
 							panic(fmt.Sprintf("VERIF-C12: %s returned %x, the caller overwrote that result, and the same call now returns %x", fn.name, keep, again))
 						}
+						for i := range again {
+							again[i] ^= 0x3C // the second result is the caller's as well
+						}
+						if third := fn.f(); !bytes.Equal(third, keep) {
+							panic(fmt.Sprintf("VERIF-C12: %s returned %x twice, the caller overwrote the second result, and the third call returns %x", fn.name, keep, third))
+						}
 						results = append(results, fmt.Sprintf("%x", keep))
 					}
 				}
